@@ -388,7 +388,7 @@ impl Prop for C04 {
                     key,
                 },
                 12..=13 => StoreOp::Failed {
-                    text: match rng.below(6) {
+                    text: match rng.below(7) {
                         0 => format!("{} PRINT \"k{}", key, i),
                         1 => format!("{} C = 1.2.3", key),
                         2 => format!("{} PRINT % {}", key, i),
@@ -404,6 +404,8 @@ impl Prop for C04 {
                         // a number followed only by characters that are blank to Unicode but not to BASIC:
                         // not a deletion, an untokenizable line
                         4 => format!("{}{}", key, rng.pick(&["\u{a0}", " \u{3000} ", "\u{b}", "\n", " \u{2003}", "\u{feff}"])),
+                        // no comment shorthand in this dialect: an apostrophe outside a string is an illegal character
+                        5 => format!("{} {}", key, rng.pick(&["' note", "PRINT 1 ' note", "'"])),
                         _ => format!("{} é", key),
                     },
                 },
